@@ -145,10 +145,12 @@ func Ed25519FromSeed(seed []byte) (ed25519.PublicKey, ed25519.PrivateKey) {
 
 // Filler returns n deterministic bytes derived from tag (cheap xorshift; not crypto).
 func Filler(n int, tag uint64) []byte {
-	out := make([]byte, n)
+	// Always a slice with spare capacity behind its length (sentinel octets that are not part
+	// of the value): code under test that reads up to cap() instead of len() then produces
+	// output that differs from the reference's. With guards on (C18) writes are detected too.
+	full := guardedAlloc(n)
+	out := full[:n]
 	if guardsOn {
-		full := guardedAlloc(n)
-		out = full[:n]
 		defer register(full, n)
 	}
 	x := tag*0x9E3779B97F4A7C15 + 0x1234567
